@@ -11,6 +11,8 @@ and a range-for over pairs whose variable is only used as `x.first` / `x.second`
 index / iterator not observable); anything else is left as it is.  The CFG is not rewritten (its elements keep pointing at the
 original sub-expressions, which are reused inside the rewritten loop).
 """
+import re
+
 from .expr import canon
 from .facts import kids
 
@@ -489,3 +491,559 @@ def inline_helpers(functions, inventory, root):
         if count > before:
             d['_inlined'] = sorted({x for x in new if x in {y.get('callee') for y in _walk(d['body'])}} | set(d.get('_inlined') or ()))
     return count
+
+
+# ---------------------------------------------------------------------------------------------------------------------------------
+# locals that the reviewed inventory does not know
+#
+# A local that names a sub-expression (`const lbool v = value(p); if (v == True) ..`, `const layer &l = trail.back();`, `const bool ok = new_clause(..);
+# if (!ok) throw ..`) is only a spelling.  The locals of every reviewed function are recorded in the inventory by *shape* (type and initialiser, the
+# names of the variables they mention left out); a local that is not there is replaced by its initialiser in the tree - when that is exact:
+#   - value initialisers without effects: nothing that the initialiser reads is written between the declaration and the last use;
+#   - an initialiser with effects (a call that creates or posts something): one use only, in the very next statement, at a place that statement
+#     evaluates first and unconditionally.
+# Anything else stays as it is.
+
+def _strip_t(t):
+    t = re.sub(r'\bconst\b', '', (t or '')).replace('&', '').strip()
+    return ' '.join(t.split())
+
+
+def _anon(n):
+    def fn(x):
+        if x.get('k') == 'DeclRefExpr' and (x.get('local') or x.get('refk') in ('ParmVar', 'Binding')) and x.get('refk') in ('Var', 'ParmVar', 'Binding', 'Decomposition'):
+            y = dict(x)
+            y['ref'] = '$' + _strip_t(x.get('t'))
+            y['c'] = []
+            return y
+        if x.get('k') == 'VarDecl' and x.get('name'):
+            y = dict(x)
+            y['name'] = '$'
+            if isinstance(x.get('init'), dict):
+                y['init'] = _replace(x['init'], fn)
+            return y
+        return None
+    return _replace(n, fn)
+
+
+def local_key(d):
+    """name-independent shape of a local declaration."""
+    init = d.get('init')
+    try:
+        ini = repr(canon(_anon(init), None)) if isinstance(init, dict) else None
+    except Exception:
+        ini = '?'
+    from .facts import REPO
+    root = REPO.rstrip('/') + '/'
+    return ('%s|%s' % (_strip_t(d.get('t')), ini)).replace(root, '')
+
+
+def local_decls(body):
+    return [x for x in _walk(body) if x.get('k') == 'VarDecl' and x.get('loc')]
+
+
+def local_keys(body):
+    """[[shape, name]] of the locals of a function body."""
+    return sorted([local_key(d), d.get('name') or ''] for d in local_decls(body))
+
+
+def _new_locals(body, known):
+    """the declarations of `body` whose shape the inventory ([[shape, name]]) does not have.  A new shape with the name (else the type) of a shape that
+    disappeared is the old local with a changed initialiser: it stays a local."""
+    avail = {}
+    for k, nm in known:
+        avail.setdefault(k, []).append(nm)
+    new = []
+    for d in local_decls(body):
+        k = local_key(d)
+        if avail.get(k):
+            nms = avail[k]
+            nms.remove(d.get('name')) if d.get('name') in nms else nms.pop()
+        else:
+            new.append(d)
+    if not new:
+        return []
+    missing = [(k.split('|', 1)[0], nm) for k, nms in avail.items() for nm in nms]
+    rest = []
+    for d in new:
+        nm = d.get('name') or ''
+        hit = [m for m in missing if nm and m[1] == nm]
+        if hit:
+            missing.remove(hit[0])
+        else:
+            rest.append(d)
+    out = []
+    for d in rest:
+        t = _strip_t(d.get('t'))
+        hit = [m for m in missing if m[0] == t]
+        if hit:
+            missing.remove(hit[0])
+        else:
+            out.append(d)
+    return out
+
+
+_ASSIGN = ('=', '+=', '-=', '*=', '/=', '%=', '|=', '&=', '^=', '<<=', '>>=')
+
+
+def _lv_path(x, members, locs):
+    """what a modification through the lvalue x changes: the innermost member of the access path (the objects above it are only traversed) and the
+    local object the path starts from."""
+    g = 0
+    first = True
+    while isinstance(x, dict) and g < 32:
+        g += 1
+        k = x.get('k')
+        if k == 'DeclRefExpr':
+            if x.get('dloc'):
+                locs.add(x['dloc'])
+            return
+        if k == 'MemberExpr':
+            if x.get('member') and first:
+                members.add(x['member'])
+                first = False
+            x = (x.get('c') or [None])[0]
+        elif k in ('ArraySubscriptExpr', 'ParenExpr') or (k == 'UnaryOperator' and x.get('op') == '*'):
+            x = (x.get('c') or [None])[0]
+        elif k == 'CXXOperatorCallExpr' and x.get('op') in ('[]', '*', '->'):
+            x = x['c'][1] if len(x.get('c') or ()) > 1 else None
+        elif k == 'CXXMemberCallExpr':
+            me = x['c'][0]
+            x = (me.get('c') or [None])[0] if me.get('k') == 'MemberExpr' else None
+        else:
+            return
+
+
+_CTX = {'functions': None, 'mod': {}, 'read': {}, 'over': None}
+
+
+def set_context(functions):
+    _CTX['functions'] = functions
+    _CTX['mod'] = {}
+    _CTX['read'] = {}
+    _CTX['over'] = None
+
+
+def _overriders(fid):
+    if _CTX['over'] is None:
+        o = {}
+        for k, f in (_CTX['functions'] or {}).items():
+            for b in f.get('overrides') or ():
+                o.setdefault(b, set()).add(k)
+        _CTX['over'] = o
+    out, st = set(), [fid]
+    while st:
+        k = st.pop()
+        for x in _CTX['over'].get(k, ()):
+            if x not in out:
+                out.add(x)
+                st.append(x)
+    return out
+
+
+def modset(fid, _stack=None):
+    """member names a repository function may write, transitively through the functions it calls (virtual calls: every overrider)."""
+    fns = _CTX['functions'] or {}
+    memo = _CTX['mod']
+    if fid in memo:
+        return memo[fid]
+    f = fns.get(fid)
+    if f is None or not f.get('body'):
+        return frozenset()
+    memo[fid] = frozenset()          # recursion: fix-point by iteration below
+    cur = frozenset()
+    for _ in range(6):
+        m, _l = _writes(f['body'])
+        for io in f.get('inits') or ():
+            pass
+        m = frozenset(m)
+        if m == cur:
+            break
+        cur = m
+        memo[fid] = cur
+    return cur
+
+
+def _writes(n):
+    """(member names, local declarations) that the statement may modify: assignments, ++/--, non-const calls on an object, address taken, and what the
+    repository functions it calls may write."""
+    members, locs = set(), set()
+    for x in _walk(n):
+        k = x.get('k')
+        cal = x.get('callee')
+        if cal and _CTX['functions'] is not None and k in ('CXXMemberCallExpr', 'CallExpr', 'CXXConstructExpr', 'CXXTemporaryObjectExpr', 'CXXOperatorCallExpr'):
+            tg = [cal]
+            if x.get('virtual'):
+                tg += list(_overriders(cal))
+            for t in tg:
+                if t in _CTX['functions']:
+                    members |= modset(t)
+        if k == 'CXXMemberCallExpr' and not (x.get('callee') or '').endswith(' const'):
+            me = x['c'][0]
+            if me.get('k') == 'MemberExpr':
+                nm = (x.get('callee_name') or '')
+                if True:
+                    _lv_path((me.get('c') or [None])[0], members, locs)
+        elif k == 'CXXOperatorCallExpr' and x.get('op') in _ASSIGN + ('++', '--', '<<', '>>') and len(x.get('c') or ()) > 1 and not (x.get('callee') or '').endswith(' const'):
+            _lv_path(x['c'][1], members, locs)
+        elif k in ('BinaryOperator', 'CompoundAssignOperator') and x.get('op') in _ASSIGN:
+            _lv_path(x['c'][0], members, locs)
+        elif k == 'UnaryOperator' and x.get('op') in ('++', '--', '&'):
+            _lv_path((x.get('c') or [None])[0], members, locs)
+        elif k == 'CallExpr' and x.get('callee_name') in ('std::swap', 'std::move', 'std::sort', 'std::fill'):
+            for a in (x.get('c') or [])[1:]:
+                _lv_path(a, members, locs)
+    return members, locs
+
+
+def readset(fid):
+    """member names a repository function may read, transitively."""
+    fns = _CTX['functions'] or {}
+    memo = _CTX.setdefault('read', {})
+    if fid in memo:
+        return memo[fid]
+    f = fns.get(fid)
+    if f is None or not f.get('body'):
+        return frozenset()
+    memo[fid] = frozenset()
+    cur = frozenset()
+    for _ in range(6):
+        m, _l = _reads(f['body'])
+        m = frozenset(m)
+        if m == cur:
+            break
+        cur = m
+        memo[fid] = cur
+    return cur
+
+
+def _reads(n):
+    members, locs = set(), set()
+    for x in _walk(n):
+        if x.get('k') == 'MemberExpr' and x.get('member'):
+            members.add(x['member'])
+        elif x.get('k') == 'DeclRefExpr' and x.get('dloc'):
+            locs.add(x['dloc'])
+        cal = x.get('callee')
+        if cal and _CTX['functions'] is not None and cal in _CTX['functions']:
+            tg = [cal] + (list(_overriders(cal)) if x.get('virtual') else [])
+            for t in tg:
+                members |= readset(t)
+    return members, locs
+
+
+def _impure(init):
+    for x in _walk(init):
+        k = x.get('k')
+        if k in ('CXXNewExpr', 'LambdaExpr'):
+            return True
+        if k == 'CXXMemberCallExpr' and not (x.get('callee') or '').endswith(' const') and not (x.get('callee_name') or '').startswith('std::') and \
+                not (x.get('callee_name') or '').rsplit('::', 1)[-1].startswith(('get_', 'is_')):
+            return True
+        if k == 'CallExpr' and not (x.get('callee_name') or '').startswith('std::') and x.get('callee_name') and \
+                not (x.get('callee_name') or '').rsplit('::', 1)[-1].startswith(('get_', 'is_', 'to_string', 'variable', 'index', 'sign')):
+            f = x.get('callee') or ''
+            if not f.endswith(' const'):
+                return True
+        if k in ('BinaryOperator', 'CompoundAssignOperator') and x.get('op') in _ASSIGN:
+            return True
+        if k == 'UnaryOperator' and x.get('op') in ('++', '--'):
+            return True
+        if k == 'CXXOperatorCallExpr' and x.get('op') in _ASSIGN + ('++', '--'):
+            return True
+    return False
+
+
+def _uncond(e):
+    """the sub-expressions of e that are evaluated whenever e is (not the right side of && / ||, not the arms of ?:, not lambda bodies)."""
+    st = [e]
+    while st:
+        x = st.pop()
+        if not isinstance(x, dict):
+            continue
+        yield x
+        k = x.get('k')
+        if k == 'LambdaExpr':
+            continue
+        c = list(x.get('c') or ())
+        if k == 'BinaryOperator' and x.get('op') in ('&&', '||'):
+            c = c[:1]
+        elif k == 'ConditionalOperator':
+            c = c[:1]
+        if isinstance(x.get('init'), dict):
+            st.append(x['init'])
+        st.extend(c)
+
+
+def _head(s):
+    """the expressions that statement s evaluates first, exactly once."""
+    k = s.get('k')
+    sl = s.get('slots') or {}
+    if k == 'IfStmt':
+        if sl.get('init') is not None:
+            return [sl['init']]
+        return [x for x in (sl.get('condvar'), sl.get('cond')) if x is not None][:1]
+    if k == 'SwitchStmt':
+        return [x for x in (sl.get('init'), sl.get('cond')) if x is not None][:1]
+    if k == 'CXXForRangeStmt':
+        return [sl['range']] if sl.get('range') is not None else []
+    if k in ('WhileStmt', 'ForStmt', 'DoStmt', 'CompoundStmt', 'CXXTryStmt', 'LabelStmt', 'CaseStmt', 'DefaultStmt'):
+        if k == 'ForStmt' and sl.get('init') is not None:
+            return [sl['init']]
+        return []
+    if k == 'DeclStmt':
+        ds = [d for d in (s.get('c') or ()) if d.get('k') == 'VarDecl']
+        return [ds[0]['init']] if ds and isinstance(ds[0].get('init'), dict) else []
+    return [s]
+
+
+def _falls(s):
+    """can control continue after statement s (structurally)?"""
+    k = s.get('k')
+    if k in ('ReturnStmt', 'CXXThrowExpr', 'BreakStmt', 'ContinueStmt', 'GotoStmt'):
+        return False
+    if k == 'CompoundStmt':
+        return all(_falls(c) for c in (s.get('c') or ()))
+    if k == 'IfStmt':
+        sl = s['slots']
+        return sl.get('else') is None or _falls(sl['then']) or _falls(sl['else']) if sl.get('then') is not None else True
+    return True
+
+
+def _live_writes(s):
+    """writes of s that control can fall out of s after: the arms that always leave (return / throw / continue / break) do not count."""
+    k = s.get('k')
+    if k == 'CompoundStmt':
+        m, l = set(), set()
+        for c in s.get('c') or ():
+            a, b = _live_writes(c)
+            m |= a
+            l |= b
+            if not _falls(c):
+                if not _falls(s):
+                    return set(), set()
+                break
+        if not _falls(s):
+            return set(), set()
+        return m, l
+    if k == 'IfStmt':
+        sl = s['slots']
+        m, l = set(), set()
+        for h in (sl.get('init'), sl.get('condvar'), sl.get('cond')):
+            if h is not None:
+                a, b = _writes(h)
+                m |= a
+                l |= b
+        for arm in (sl.get('then'), sl.get('else')):
+            if arm is not None and _falls(arm):
+                a, b = _live_writes(arm)
+                m |= a
+                l |= b
+        return m, l
+    if not _falls(s):
+        return set(), set()
+    return _writes(s)
+
+
+def _is_copy(n):
+    from .expr import is_copy_ctor
+    return is_copy_ctor(n)
+
+
+def fold_new_locals(d, known, stats=None):
+    """replaces, in function dict d, the locals the inventory does not know by their initialisers (where exact).  Returns the number folded."""
+    body = d.get('body')
+    if not body:
+        return 0
+    folded = 0
+    for _round in range(24):
+        new = _new_locals(body, known)
+        if not new:
+            break
+        newlocs = {x['loc'] for x in new}
+        done = False
+
+        def try_block(blk):
+            nonlocal done, folded
+            cs = blk.get('c') or []
+            for i, s in enumerate(cs):
+                if s.get('k') != 'DeclStmt':
+                    continue
+                ds = [x for x in (s.get('c') or ()) if x.get('k') == 'VarDecl']
+                if len(ds) != 1 or len(s.get('c') or ()) != 1:
+                    continue
+                v = ds[0]
+                if v.get('loc') not in newlocs or v.get('static') or v.get('bindings') or not isinstance(v.get('init'), dict) or v['loc'] in tried:
+                    continue
+                tried.add(v['loc'])
+                t0 = v.get('t') or ''
+                isref = t0.rstrip().endswith('&')
+                tt = t0.replace('const ', '')
+                if tt.startswith(('std::map<', 'std::set<', 'std::vector<', 'std::unordered_', 'std::list<', 'std::queue<', 'std::deque<')) and not t0.startswith('const ') and not isref:
+                    continue
+                init = v['init']
+                while init.get('k') == 'CXXConstructExpr' and _is_copy(init):
+                    init = init['c'][0]
+                rest = cs[i + 1:]
+                uses = []       # (sibling index, node)
+                for j, r in enumerate(rest):
+                    for x in _walk(r):
+                        if _is_ref(x, v['loc']):
+                            uses.append((j, x))
+                if not uses:
+                    continue
+                # the local itself must never be written (value) / re-seated
+                wm, wl = _writes({'k': 'CompoundStmt', 'c': rest})
+                if v['loc'] in wl and not isref:
+                    continue
+                if _impure(init):
+                    if len(uses) != 1 or uses[0][0] != 0:
+                        continue
+                    u = uses[0][1]
+                    heads = _head(rest[0])
+                    if not any(y is u for h in heads for y in _uncond(h)):
+                        continue
+                    if any(x.get('as') for x in _anc_chain(rest[0], u)):
+                        continue
+                else:
+                    rm, rl = _reads(init)
+                    if not _uses_see_no_write({'k': 'CompoundStmt', 'c': rest}, {id(u) for _, u in uses}, rm, rl):
+                        continue
+                ids = {id(u) for _, u in uses}
+                ini = init
+
+                def fn(x, ids=ids, ini=ini):
+                    if id(x) in ids:
+                        y = dict(ini)
+                        y['folded_from'] = v.get('name')
+                        return y
+                    return None
+                blk['c'] = cs[:i] + [_replace(r, fn) for r in rest]
+                folded += 1
+                done = True
+                if stats is not None:
+                    stats.append((d.get('id'), v.get('name')))
+                return True
+            return False
+
+        tried = set()
+        progressed = False
+        for blk in [x for x in _walk(body) if x.get('k') == 'CompoundStmt']:
+            if try_block(blk):
+                progressed = True
+                break
+        if not progressed:
+            break
+    return folded
+
+
+
+def _anc_chain(root, target):
+    """nodes on the way from root down to target (inclusive of root)."""
+    path = []
+
+    def go(n):
+        if n is target:
+            return True
+        for c in kids(n):
+            if go(c):
+                path.append(n)
+                return True
+        return False
+    go(root)
+    return path
+
+
+def _uses_see_no_write(stmt, use_ids, rm, rl):
+    """evaluation-order scan: does every use (by node identity) come before any write to the members rm / locals rl that may have happened since the
+    start of stmt?  Loops: a use inside sees every write of the loop; lambdas: a use inside sees every write of stmt."""
+    allw = _writes(stmt)
+
+    def clash(acc):
+        return bool((acc[0] & rm) or (acc[1] & rl))
+
+    def has_use(n):
+        return any(id(x) in use_ids for x in _walk(n))
+
+    def expr(e, acc):
+        """an expression (or opaque statement): uses read first, then its writes happen"""
+        if e is None:
+            return acc, True
+        if has_use(e):
+            inl = False
+            for x in _walk(e):
+                if x.get('k') == 'LambdaExpr' and has_use(x):
+                    inl = True
+            if inl and clash(allw):
+                return acc, False
+            if clash(acc):
+                return acc, False
+        w = _writes(e)
+        return (acc[0] | w[0], acc[1] | w[1]), True
+
+    def scan(s, acc):
+        """returns (acc after s, ok)"""
+        if s is None:
+            return acc, True
+        k = s.get('k')
+        sl = s.get('slots') or {}
+        if k == 'CompoundStmt':
+            for c in s.get('c') or ():
+                acc, ok = scan(c, acc)
+                if not ok:
+                    return acc, False
+                if not _falls(c):
+                    break
+            return acc, True
+        if k == 'IfStmt':
+            for h in (sl.get('init'), sl.get('condvar'), sl.get('cond')):
+                acc, ok = expr(h, acc)
+                if not ok:
+                    return acc, False
+            outs = []
+            for arm in (sl.get('then'), sl.get('else')):
+                a2, ok = scan(arm, acc)
+                if not ok:
+                    return acc, False
+                if arm is None or _falls(arm):
+                    outs.append(a2)
+            if not outs:
+                return acc, True
+            return (set().union(*[o[0] for o in outs]), set().union(*[o[1] for o in outs])), True
+        if k in ('WhileStmt', 'ForStmt', 'DoStmt', 'CXXForRangeStmt', 'SwitchStmt'):
+            if k == 'ForStmt':
+                acc, ok = expr(sl.get('init'), acc)
+                if not ok:
+                    return acc, False
+            if k == 'CXXForRangeStmt':
+                acc, ok = expr(sl.get('range'), acc)
+                if not ok:
+                    return acc, False
+            if k == 'SwitchStmt':
+                acc, ok = expr(sl.get('cond'), acc)
+                if not ok:
+                    return acc, False
+            w = _writes(s)
+            acc2 = (acc[0] | w[0], acc[1] | w[1])
+            if has_use(s) and k != 'SwitchStmt':
+                for part in (sl.get('cond'), sl.get('inc'), sl.get('body')):
+                    if part is not None and has_use(part) and clash(acc2):
+                        return acc, False
+                # uses inside: every one sees acc2
+                return acc2, True
+            if k == 'SwitchStmt' and has_use(sl.get('body') or {}):
+                if clash(acc2):
+                    return acc, False
+            return acc2, True
+        if k in ('AttributedStmt', 'LabelStmt', 'CaseStmt', 'DefaultStmt'):
+            c = s.get('c') or []
+            return scan(c[-1], acc) if c else (acc, True)
+        if k == 'CXXTryStmt':
+            w = _writes(s)
+            acc2 = (acc[0] | w[0], acc[1] | w[1])
+            if has_use(s) and clash(acc2):
+                return acc, False
+            return acc2, True
+        return expr(s, acc)
+    _a, ok = scan(stmt, (set(), set()))
+    return ok
